@@ -16,6 +16,7 @@ import (
 
 var c11c struct {
 	connectFails, signFails, writeFails, readFails bool
+	readErrKind                                    int
 	startErr, startName                            string
 	wrote                                          []msg.Message
 	wroteOn                                        []io.Writer
@@ -61,7 +62,8 @@ func c11StubWriteMsg(c io.Writer, m any) error {
 
 func c11StubReadMsgInto(c io.Reader, m msg.Message) error {
 	if c11c.readFails {
-		return io.EOF
+		// the stream ended, the frame was malformed, or nothing came before the deadline
+		return []error{io.EOF, io.ErrUnexpectedEOF, errors.New("message type error"), errors.New("invalid character 'x' looking for beginning of value"), errors.New("i/o timeout")}[c11c.readErrKind]
 	}
 	if s, ok := m.(*msg.StartWorkConn); ok {
 		s.ProxyName, s.Error = c11c.startName, c11c.startErr
@@ -86,6 +88,10 @@ func VerifC11ClientReqWorkConn() {
 	c11c.signFails = zzverif.Bool("signFails")
 	c11c.writeFails = zzverif.Bool("writeFails")
 	c11c.readFails = zzverif.Bool("readFails")
+	c11c.readErrKind = 0
+	if c11c.readFails {
+		c11c.readErrKind = zzverif.Choice("readError", 5)
+	}
 	c11c.startErr = []string{"", "no such proxy"}[zzverif.Choice("startError", 2)]
 	c11c.startName = []string{"p1", "p2", ""}[zzverif.Choice("startName", 3)]
 	c11c.wrote, c11c.wroteOn, c11c.handedName, c11c.handedConn, c11c.handedMsg, c11c.opened = nil, nil, nil, nil, nil, nil
